@@ -194,7 +194,14 @@ fn gen_c15(tier: &str, rng: &mut Rng) -> Vec<Case> {
     let n = if tier == "thorough" { 60000 } else { 3000 };
     let mut cases = Vec::new();
     for gi in 0..n {
-        let (html, _) = gen_doc(rng, GenOpts::all());
+        let (mut html, _) = gen_doc(rng, GenOpts::all());
+        // strikeout (and other inline markup) around whole blocks, pretty-printed
+        if rng.chance(1, 5) {
+            let name = *rng.pick(&["del", "s", "em", "a href=\"u\""]);
+            let close = name.split(' ').next().unwrap();
+            let sep = *rng.pick(&[" ", "\n", "\n  ", ""]);
+            html = format!("<{}>{}{}{}<p>tail</p>{}</{}>", name, sep, html, sep, sep, close);
+        }
         let bytes = html.into_bytes();
         let mut base = Cfg { deco: *rng.pick(&[0u8, 1, 2, 3]), ..Default::default() };
         if rng.chance(1, 4) {
@@ -575,7 +582,11 @@ fn gen_c14(tier: &str, rng: &mut Rng) -> Vec<Case> {
         let tables = rng.chance(1, 4);
         let o = GenOpts { tables: if tables { 1 } else { 0 }, nested_tables: false, links: true, ids: true, pre: true, dl: true, br: false, imgs: false, sup: false, ..Default::default() };
         let (html, _) = gen_doc(rng, o);
-        let cfg = Cfg { deco: *rng.pick(&[3u8, 3, 2, 1]), ..Default::default() };
+        let mut cfg = Cfg { deco: *rng.pick(&[3u8, 3, 2, 1]), ..Default::default() };
+        if tables && rng.chance(1, 3) {
+            // raw mode: rows are stacked, so the whole output keeps document order
+            cfg.raw = 1;
+        }
         let w = if rng.chance(1, 3) { rng.range(1, 10) } else { rng.range(1, 100) };
         let id = cases.len();
         cases.push(mk_case(id, 1, cfg, w, html.into_bytes(), Some(1), g(""), if tables { "tables" } else { "flow" }));
@@ -687,7 +698,8 @@ fn check_c14(cases: &[Case], results: &[Option<RunResult>]) -> Vec<Violation> {
             continue;
         }
         // placement (trivial decorator, table-free: the non-space stream is V(d))
-        if c.spec.cfg.deco == 3 && c.slice == "flow" && !has_element(&dom, &["s", "del", "sup", "table"]) {
+        let ordered = (c.slice == "flow" && !has_element(&dom, &["table"])) || c.spec.cfg.raw == 1;
+        if c.spec.cfg.deco == 3 && ordered && !has_element(&dom, &["s", "del", "sup"]) {
             let gm: HashMap<String, usize> = got.iter().filter(|x| expset.contains(&x.0)).map(|x| (x.0.clone(), x.1)).collect();
             for (name, pos) in &expect {
                 if let Some(p) = gm.get(name) {
